@@ -183,7 +183,7 @@ var bacTampers = []string{"bitflip", "other-mrz-keys", "replay-other-run", "wron
 
 var caImpostors = []string{"own-key", "no-switch", "plain-9000", "replay-transcript", "own-key-no-switch", "empty-mac-probe", "short-mac-probe"}
 
-var aaTampers = []string{"digest-tail-wrong", "bitflip", "other-challenge", "other-key", "truncate", "append", "zero-r", "zero-s", "r-eq-n", "s-plus-n", "neg-s-malleable", "digest-m1-only", "unknown-trailer", "wrong-hash-trailer", "random", "empty", "plain-as-der", "der-trailing"}
+var aaTampers = []string{"digest-tail-wrong", "bitflip", "other-challenge", "other-key", "truncate", "append", "zero-r", "zero-s", "r-eq-n", "s-plus-n", "neg-s-malleable", "digest-m1-only", "unknown-trailer", "wrong-hash-trailer", "random", "empty", "plain-as-der", "der-trailing", "short-f"}
 
 func (e ProtoEngine) Gen(prop, tier string, seed uint64, yield func(c any) bool) {
 	rng := core.NewRng(core.SubSeed(seed, "proto", e.P, tier))
@@ -1103,6 +1103,14 @@ func runAA(c ProtoCase, out *core.Outcome) {
 				break
 			}
 			o = forgeRSA(key, rnd, c.Mode, mrng)
+		case "short-f":
+			// a key-holding signer whose recoverable message is far shorter than the modulus: header, a body around
+			// the digest length (or empty), one of the five trailers or none
+			if !isRSA {
+				o = o[:c.A%(len(o)+1)]
+				break
+			}
+			o = CraftRSAF(key, c.A, c.B)
 		case "random":
 			o = mrng.Bytes(len(o))
 		case "empty":
@@ -1270,3 +1278,37 @@ func forgeRSA(k *chip.AAKey, rnd []byte, mode string, rng *core.Rng) []byte {
 }
 
 var _ = lds.CheckDigit
+
+// CraftRSAF returns sig = F^d mod n for a short, hand-built recoverable message F = header || body || trailer
+// (a selects the trailer and header, b the body length relative to the digest length of that trailer).
+func CraftRSAF(k *chip.AAKey, a, b int) []byte {
+	trailers := []struct {
+		tr []byte
+		hl int
+	}{{[]byte{0xBC}, 20}, {[]byte{0x38, 0xCC}, 28}, {[]byte{0x34, 0xCC}, 32}, {[]byte{0x36, 0xCC}, 48}, {[]byte{0x35, 0xCC}, 64}, {[]byte{0xCC}, 0}, {nil, 0}, {[]byte{0x33, 0xCC}, 20}}
+	t := trailers[a%len(trailers)]
+	hdr := []byte{0x6A}
+	switch (a / len(trailers)) % 4 {
+	case 1:
+		hdr = []byte{0x4A}
+	case 2:
+		hdr = nil
+	}
+	deltas := []int{-1, 0, -2, 1, -t.hl, -t.hl + 1, 2, 8}
+	bl := t.hl + deltas[b%len(deltas)]
+	if bl < 0 {
+		bl = 0
+	}
+	f := append(append(bytes.Clone(hdr), bytes.Repeat([]byte{0x5C}, bl)...), t.tr...)
+	klen := (k.N.BitLen() + 7) / 8
+	if len(f) == 0 {
+		f = []byte{0}
+	}
+	if len(f) >= klen {
+		f = f[:klen-1]
+	}
+	sgn := new(big.Int).Exp(new(big.Int).SetBytes(f), k.D, k.N)
+	o := make([]byte, klen)
+	sgn.FillBytes(o)
+	return o
+}
